@@ -1435,7 +1435,7 @@ Proof.
       { apply existsb_exists. exists (b, ws). split; [exact Hin|]. simpl. apply existsb_exists. eauto. }
       congruence.
   - intros [t w] Hop. unfold watch_ops in Hop. apply in_flat_map in Hop as [ev [Hev Hop]].
-    destruct ev as [n0|n0 t0 w0|k r f t']; try (destruct Hop).
+    destruct ev as [n0|n0 t0 w0|k r|cr r f t']; try (destruct Hop).
     destruct (bytes_eqb n0 n) eqn:En; [|destruct Hop].
     apply bytes_eqb_eq in En; subst n0. destruct Hop as [Hop|[]]. inversion Hop; subst t0 w0. simpl.
     split.
@@ -1522,13 +1522,14 @@ Qed.
 Lemma P_hook_item_intro hc i ev ids snapids S c j :
   nth_error (hk_evs hc) i = Some ev ->
   hk_resolve_snaps hc snapids = Some S ->
-  hk_expected hc ev ids S = Some c ->
+  In c (hk_expected hc ev ids S) ->
   map fst snapids = canon_names (c_incl c) ->
   wf1 c = true -> ctx_trigger c = false -> j = JObj (map_v1 c) ->
   P_hook_item hc (mkHitem (N.of_nat i) ids snapids) j = true.
 Proof.
   intros Hev Hs Hc Hn Hwf Ht ->. unfold P_hook_item. cbn [hi_ev hi_ids hi_snaps].
-  rewrite Nat2N.id, Hev, Hs, Hc, Hn, Hwf, list_eqb_refl by apply bytes_eqb_refl.
+  rewrite Nat2N.id, Hev, Hs. apply existsb_exists. exists c. split; [exact Hc|].
+  rewrite Hn, Hwf, list_eqb_refl by apply bytes_eqb_refl.
   simpl. now apply P_item_v1_rendered.
 Qed.
 
@@ -1577,10 +1578,12 @@ Proof. destruct a, b; simpl; intros H; try discriminate H; reflexivity. Qed.
 
 Lemma obind_eqb_eq a b : obind_eqb a b = true -> a = b.
 Proof.
-  destruct a as [t1 n1 i1 g1], b as [t2 n2 i2 g2]. unfold obind_eqb. simpl. intros H.
+  destruct a as [t1 n1 i1 g1 c1 r1], b as [t2 n2 i2 g2 c2 r2]. unfold obind_eqb. simpl. intros H.
+  apply andb_true_iff in H as [H Hr]. apply andb_true_iff in H as [H Hc].
   apply andb_true_iff in H as [H Hg]. apply andb_true_iff in H as [H Hi]. apply andb_true_iff in H as [Ht Hn].
-  apply btype_eqb_eq in Ht. apply bytes_eqb_eq in Hn. apply bytes_eqb_eq in Hg.
-  apply (list_eqb_eq bytes_eqb bytes_eqb_eq) in Hi. now subst.
+  apply btype_eqb_eq in Ht. apply bytes_eqb_eq in Hn. apply bytes_eqb_eq in Hg. apply bytes_eqb_eq in Hc.
+  apply (list_eqb_eq bytes_eqb bytes_eqb_eq) in Hi.
+  apply (list_eqb_eq _ (pair_eqb_eq bytes_eqb bytes_eqb bytes_eqb_eq bytes_eqb_eq)) in Hr. now subst.
 Qed.
 
 Lemma include_from_other hc o :
@@ -1588,7 +1591,7 @@ Lemma include_from_other hc o :
   hk_include_from hc (ob_type o) (ob_name o)
   = match find (okey_eqb o) (hk_other hc) with Some o' => ob_incl o' | None => [] end.
 Proof.
-  destruct o as [ty nm inc grp]. unfold obind_kind_ok, hk_include_from. simpl.
+  destruct o as [ty nm inc grp crd rules]. unfold obind_kind_ok, hk_include_from. simpl.
   destruct ty; try discriminate; reflexivity.
 Qed.
 
@@ -1614,6 +1617,71 @@ Proof.
   - unfold ctx_trigger, c; proj. now rewrite (Ho2 eq_refl), Ht.
 Qed.
 
+(* the context of a schedule / validating / mutating / conversion binding [o] *)
+Lemma obind_item_ok hc pre ev r o x ar cr fr to :
+  hook_wf hc = true -> T_hook hc = false ->
+  hk_evs hc = pre ++ ev :: r ->
+  In o (hk_other hc) -> obind_kind_ok o = true ->
+  first_namesake_differs hc o = false ->
+  x = mkCtx (ob_type o) false (ob_incl o) false (ob_group o) (ob_name o) KEmpty WNone [] [] ar cr fr to ->
+  match ob_type o with BValidating | BMutating => is_some ar | BConversion => is_some cr | _ => true end = true ->
+  (forall S, In (set_fresh x [] S) (hk_expected hc ev [] S)) ->
+  P_hook_item hc (hk_item hc (length pre, ([], x))) (JObj (map_v1 (U hc x))) = true.
+Proof.
+  intros Hwf Ht Hevs Hino Hkind Hfd Hx Hrev Hexp.
+  assert (Hnth : nth_error (hk_evs hc) (length pre) = Some ev).
+  { rewrite Hevs, nth_error_app2, Nat.sub_diag by lia. reflexivity. }
+  set (sf := hk_snapshots_for hc (hk_evs hc)).
+  assert (Hknown : forallb (fun n => is_some (kube_named n (hk_kube hc))) (ob_incl o) = true).
+  { unfold hook_wf in Hwf. apply andb_true_iff in Hwf as [Hwf _]. apply andb_true_iff in Hwf as [Hwf _].
+    apply andb_true_iff in Hwf as [_ H2]. rewrite forallb_forall in H2. auto. }
+  destruct (find_in_some _ (okey_eqb o) _ o Hino) as [o' Hfind].
+  { unfold okey_eqb. now rewrite btype_eqb_refl, bytes_eqb_refl. }
+  assert (Hcanon : canon_names (ob_incl o') = canon_names (ob_incl o)).
+  { unfold first_namesake_differs in Hfd. rewrite Hfind in Hfd. apply negb_false_iff in Hfd.
+    now apply (list_eqb_eq bytes_eqb bytes_eqb_eq) in Hfd. }
+  pose proof (include_from_other hc o Hkind) as Hinc. rewrite Hfind in Hinc.
+  assert (Hsync : is_sync x = false).
+  { rewrite Hx. unfold is_sync; proj. destruct (ob_type o); reflexivity. }
+  assert (Hbt : c_btype x = ob_type o) by (now rewrite Hx).
+  assert (Hbn : c_binding x = ob_name o) by (now rewrite Hx).
+  assert (Hwfk : forall S, map fst S = canon_names (ob_incl o) ->
+                           forallb (fun p => forallb (wf_item None) (snd p)) S = true ->
+                           wf1 (set_fresh x [] S) = true).
+  { intros S Hns Hw. rewrite Hx. unfold wf1, wf_snapshots, set_fresh; proj.
+    rewrite (sorted_by_canon _ S (ob_incl o) Hns), Hw. simpl.
+    unfold obind_kind_ok in Hkind. destruct (ob_type o); try discriminate Hkind; try reflexivity; exact Hrev. }
+  destruct (is_nil (hk_kube hc)) eqn:Hnil.
+  - (* no kubernetes controller: the context is handed over as it is *)
+    assert (Hno : ob_incl o = []).
+    { destruct (hk_kube hc); [|discriminate Hnil]. destruct (ob_incl o); [reflexivity|discriminate Hknown]. }
+    assert (Hxx : set_fresh x [] [] = x) by (now rewrite Hx).
+    unfold hk_item. cbn [fst snd]. rewrite Hnil, andb_false_r.
+    apply (P_hook_item_intro hc (length pre) ev [] [] [] (set_fresh x [] [])).
+    + exact Hnth.
+    + reflexivity.
+    + apply Hexp.
+    + rewrite Hx. unfold set_fresh; proj. now rewrite Hno.
+    + apply Hwfk; [now rewrite Hno|reflexivity].
+    + rewrite Hx. reflexivity.
+    + f_equal. unfold U. now rewrite Hnil, Hxx.
+  - destruct (hook_snaps_resolved hc (canon_names (ob_incl o)) Hwf Ht) as [S [Hr [Hns [Hm [Hw Htr]]]]].
+    fold sf in Hr, Hm.
+    unfold hk_item. cbn [fst snd]. rewrite Hnil, Hsync, Hbt, Hbn. cbn [andb negb].
+    rewrite Hinc, Hcanon. fold sf.
+    apply (P_hook_item_intro hc (length pre) ev [] _ S (set_fresh x [] S)).
+    + exact Hnth.
+    + exact Hr.
+    + apply Hexp.
+    + rewrite Hx. unfold set_fresh; proj. rewrite map_map. simpl. now rewrite map_id.
+    + now apply Hwfk.
+    + rewrite Hx. unfold ctx_trigger, set_fresh; proj. exact Htr.
+    + f_equal. unfold U. rewrite Hnil. unfold update_pure. rewrite Hsync, Hbt, Hbn, Hinc. fold sf.
+      rewrite Hx. unfold set_fresh; proj.
+      change (@nil item) with (map norm_item []) at 1.
+      apply map_v1_ext. apply (fresh_snapshots_json _ (ob_incl o)); [exact Hcanon|exact Hm].
+Qed.
+
 Lemma hook_item_ok hc pre ev r q :
   hook_wf hc = true -> T_hook hc = false -> T_same_type_name hc = false ->
   T_admission_same_name hc = false ->
@@ -1624,7 +1692,7 @@ Proof.
   assert (Hnth : nth_error (hk_evs hc) (length pre) = Some ev).
   { rewrite Hevs, nth_error_app2, Nat.sub_diag by lia. reflexivity. }
   set (sf := hk_snapshots_for hc (hk_evs hc)).
-  destruct ev as [name|name t w|k review from to]; cbn [hk_contexts] in Hin.
+  destruct ev as [name|name t w|k review|crd review from to]; cbn [hk_contexts] in Hin.
   - (* Synchronization *)
     destruct (kube_named name (hk_kube hc)) as [[b ws0]|] eqn:Hn; [|destruct Hin].
     destruct (kube_named_in _ _ _ _ _ Hn) as [_ Hname]. subst name.
@@ -1640,7 +1708,7 @@ Proof.
     unfold hk_include_from. rewrite Hn. cbn [fst].
     fold sf.
     eapply (P_hook_item_intro hc (length pre) (HSync (b_name b)) _ _ S); try eassumption.
-    + unfold hk_expected. rewrite Hn, Hres. reflexivity.
+    + unfold hk_expected. rewrite Hn, Hres. now left.
     + proj. rewrite map_map. simpl. now rewrite map_id.
     + f_equal. unfold U. rewrite Hnil. unfold update_pure, set_fresh, is_sync. proj.
       unfold hk_include_from. rewrite Hn. cbn [fst]. fold sf. rewrite Hitems.
@@ -1666,81 +1734,71 @@ Proof.
     unfold hk_item, is_sync. cbn [fst snd]. proj. cbn [andb].
     rewrite Hnil. unfold hk_include_from. rewrite Hn. cbn [fst]. fold sf.
     eapply (P_hook_item_intro hc (length pre) (HWatch (b_name b) t w) _ _ S); try eassumption.
-    + unfold hk_expected. rewrite Hn. rewrite list_eqb_refl by apply bytes_eqb_refl. reflexivity.
+    + unfold hk_expected. rewrite Hn. rewrite list_eqb_refl by apply bytes_eqb_refl. now left.
     + proj. rewrite map_map. simpl. now rewrite map_id.
     + f_equal. unfold U. rewrite Hnil. unfold update_pure, set_fresh, is_sync. proj.
       unfold hk_include_from. rewrite Hn. cbn [fst]. fold sf.
       replace [Raw (apply_filter (jqf_of b w) (b_keep b) (w_obj w))] with (map norm_item [spec_item b w]).
       * apply map_v1_ext. apply (fresh_snapshots_json _ (b_incl b)); [reflexivity|exact Hm].
       * simpl. unfold norm_item. now rewrite spec_item_ofr, entry_of_ofr.
-  - (* a schedule / validating / mutating / conversion binding *)
+  - (* a schedule / validating / mutating binding *)
     destruct (nth_error (hk_other hc) k) as [o|] eqn:Hk; [|destruct Hin].
+    pose proof (nth_error_In _ _ Hk) as Hino.
+    assert (Hkind : obind_kind_ok o = true).
+    { unfold hook_wf in Hwf. apply andb_true_iff in Hwf as [Hwf _]. apply andb_true_iff in Hwf as [Hwf _].
+      apply andb_true_iff in Hwf as [H1 _]. rewrite forallb_forall in H1. auto. }
     assert (Hlink : (if is_adm (ob_type o) then adm_link hc o else o) = o).
     { destruct (is_adm (ob_type o)) eqn:Ha; [|reflexivity].
       destruct (obind_eqb (adm_link hc o) o) eqn:E; [now apply obind_eqb_eq in E|].
       exfalso. unfold T_admission_same_name in Hta. rewrite <- Bool.not_true_iff_false in Hta. apply Hta.
-      apply existsb_exists. exists (HOther k review from to). split.
+      apply existsb_exists. exists (HOther k review). split.
       - rewrite Hevs. apply in_or_app. right. now left.
       - now rewrite Hk, Ha, E. }
-    rewrite Hlink in Hin.
-    destruct Hin as [<-|[]].
-    pose proof (nth_error_In _ _ Hk) as Hino.
-    assert (Hkind : obind_kind_ok o = true /\ forallb (fun n => is_some (kube_named n (hk_kube hc))) (ob_incl o) = true).
-    { unfold hook_wf in Hwf. apply andb_true_iff in Hwf as [Hwf _]. apply andb_true_iff in Hwf as [Hwf _].
-      apply andb_true_iff in Hwf as [H1 H2]. rewrite forallb_forall in H1, H2. split; auto. }
-    destruct Hkind as [Hkind Hknown].
-    destruct (find_in_some _ (okey_eqb o) _ o Hino) as [o' Hfind].
-    { unfold okey_eqb. now rewrite btype_eqb_refl, bytes_eqb_refl. }
-    assert (Hcanon : canon_names (ob_incl o') = canon_names (ob_incl o)).
-    { unfold T_same_type_name in Hts.
-      destruct (list_eqb bytes_eqb (canon_names (ob_incl o')) (canon_names (ob_incl o))) eqn:E.
-      - now apply (list_eqb_eq bytes_eqb bytes_eqb_eq) in E.
-      - exfalso. rewrite <- Bool.not_true_iff_false in Hts. apply Hts. apply existsb_exists.
-        exists (HOther k review from to). split.
-        + rewrite Hevs. apply in_or_app. right. now left.
-        + now rewrite Hk, Hfind, E. }
-    pose proof (include_from_other hc o Hkind) as Hinc. rewrite Hfind in Hinc.
-    destruct (is_nil (hk_kube hc)) eqn:Hnil.
-    + (* no kubernetes controller: the context is handed over as it is *)
-      assert (Hno : ob_incl o = []).
-      { destruct (hk_kube hc); [|discriminate Hnil]. destruct (ob_incl o); [reflexivity|discriminate Hknown]. }
-      unfold hk_item. cbn [fst snd]. rewrite Hnil, andb_false_r.
-      eapply (P_hook_item_intro hc (length pre) (HOther k review from to) _ _ [] (ctx_of_obind o review from to)); try eassumption.
-      * reflexivity.
-      * unfold hk_expected. rewrite Hk.
-        destruct o as [ty nm inc grp]; unfold obind_kind_ok in Hkind; simpl in Hkind, Hno |- *; subst inc;
-          destruct ty; try discriminate Hkind; reflexivity.
-      * destruct o as [ty nm inc grp]; simpl in Hno; subst inc; destruct ty; reflexivity.
-      * destruct o as [ty nm inc grp]; unfold obind_kind_ok in Hkind; simpl in Hkind;
-          destruct ty; try discriminate Hkind; reflexivity.
-      * destruct o as [ty nm inc grp]; destruct ty; reflexivity.
-      * f_equal. unfold U. rewrite Hnil.
-        destruct o as [ty nm inc grp]; simpl in Hno; subst inc; unfold obind_kind_ok in Hkind; simpl in Hkind;
-          destruct ty; try discriminate Hkind; reflexivity.
-    + destruct (hook_snaps_resolved hc (canon_names (ob_incl o)) Hwf Ht) as [S [Hr [Hns [Hm [Hw Htr]]]]].
-      fold sf in Hr, Hm.
-      assert (Hsync : is_sync (ctx_of_obind o review from to) = false).
-      { unfold is_sync, ctx_of_obind; proj. destruct (ob_type o); reflexivity. }
-      unfold hk_item. cbn [fst snd]. rewrite Hnil, Hsync. cbn [andb negb].
-      replace (c_btype (ctx_of_obind o review from to)) with (ob_type o) by reflexivity.
-      replace (c_binding (ctx_of_obind o review from to)) with (ob_name o) by reflexivity.
-      rewrite Hinc, Hcanon. fold sf.
-      eapply (P_hook_item_intro hc (length pre) (HOther k review from to) _ _ S
-                                (set_fresh (ctx_of_obind o review from to) [] S)); try eassumption.
-      * unfold hk_expected. rewrite Hk.
-        destruct o as [ty nm inc grp]; unfold obind_kind_ok in Hkind; simpl in Hkind |- *;
-          destruct ty; try discriminate Hkind; reflexivity.
-      * unfold set_fresh, ctx_of_obind; proj. rewrite map_map. simpl. now rewrite map_id.
-      * unfold wf1, wf_snapshots, set_fresh, ctx_of_obind; proj.
-        rewrite (sorted_by_canon _ S (ob_incl o) Hns), Hw. simpl.
-        destruct o as [ty nm inc grp]; unfold obind_kind_ok in Hkind; simpl in Hkind |- *;
-          destruct ty; try discriminate Hkind; reflexivity.
-      * f_equal. unfold U. rewrite Hnil. unfold update_pure. rewrite Hsync.
-        replace (c_btype (ctx_of_obind o review from to)) with (ob_type o) by reflexivity.
-        replace (c_binding (ctx_of_obind o review from to)) with (ob_name o) by reflexivity.
-        rewrite Hinc. fold sf. unfold set_fresh, ctx_of_obind; proj.
-        change (@nil item) with (map norm_item []) at 1.
-        apply map_v1_ext. apply (fresh_snapshots_json _ (ob_incl o)); [exact Hcanon|exact Hm].
+    assert (Hfd : first_namesake_differs hc o = false).
+    { destruct (first_namesake_differs hc o) eqn:E; [|reflexivity].
+      exfalso. unfold T_same_type_name in Hts. rewrite <- Bool.not_true_iff_false in Hts. apply Hts.
+      apply existsb_exists. exists (HOther k review). split.
+      - rewrite Hevs. apply in_or_app. right. now left.
+      - now rewrite Hk. }
+    assert (Hq : ob_type o <> BConversion /\ q = ([], ctx_of_obind o review)).
+    { revert Hin Hlink. destruct (ob_type o) eqn:Hty; cbn [is_adm]; intros Hin Hlink;
+        try (destruct Hin; fail); (split; [discriminate|]); rewrite ?Hlink in Hin;
+        destruct Hin as [<-|[]]; reflexivity. }
+    destruct Hq as [Hnc ->]. cbn [snd].
+    apply (obind_item_ok hc pre (HOther k review) r o (ctx_of_obind o review)
+                         (if is_adm (ob_type o) then Some review else None) None [] []); try assumption.
+    + reflexivity.
+    + destruct (ob_type o); try reflexivity. congruence.
+    + intros S. unfold hk_expected. rewrite Hk. unfold obind_kind_ok in Hkind.
+      destruct o as [ty nm inc grp crd rules]; simpl in Hkind, Hnc |- *.
+      destruct ty; try discriminate Hkind; try congruence; now left.
+  - (* a conversion request resolved to a rule *)
+    destruct (conv_link hc crd from to) as [[o rr]|] eqn:Hl; [|destruct Hin].
+    destruct Hin as [<-|[]]. cbn [snd].
+    unfold conv_link in Hl.
+    destruct (find (conv_match crd from to) (rev (hk_other hc))) as [o0|] eqn:Hf; [|discriminate Hl].
+    destruct (find (rule_eqb from to) (ob_rules o0)) as [r0|] eqn:Hr0; [|discriminate Hl].
+    inversion Hl; subst o0 r0. clear Hl.
+    apply find_some in Hf as [Hino Hm]. apply in_rev in Hino.
+    apply find_some in Hr0 as [_ Hre]. unfold rule_eqb in Hre.
+    apply andb_true_iff in Hre as [Hfrom Hto]. apply bytes_eqb_eq in Hfrom. apply bytes_eqb_eq in Hto.
+    assert (Hty : ob_type o = BConversion).
+    { unfold conv_match in Hm. apply andb_true_iff in Hm as [Hm _]. apply andb_true_iff in Hm as [Hm _].
+      now apply btype_eqb_eq in Hm. }
+    assert (Hfd : first_namesake_differs hc o = false).
+    { destruct (first_namesake_differs hc o) eqn:E; [|reflexivity].
+      exfalso. unfold T_same_type_name in Hts. rewrite <- Bool.not_true_iff_false in Hts. apply Hts.
+      apply existsb_exists. exists (HConv crd review from to). split.
+      - rewrite Hevs. apply in_or_app. right. now left.
+      - apply existsb_exists. exists o. split; [exact Hino|now rewrite Hm, E]. }
+    apply (obind_item_ok hc pre (HConv crd review from to) r o (ctx_of_conv o rr review)
+                         None (Some review) (fst rr) (snd rr)); try assumption.
+    + unfold obind_kind_ok. now rewrite Hty.
+    + unfold ctx_of_conv. now rewrite Hty.
+    + now rewrite Hty.
+    + intros S. unfold hk_expected. apply in_map_iff. exists o. split.
+      * unfold set_fresh, ctx_of_conv; proj. now rewrite <- Hfrom, <- Hto.
+      * apply filter_In. now split.
 Qed.
 
 (* every combined array the model produces for a well-formed hook conforms, outside the trigger
@@ -1756,6 +1814,26 @@ Proof.
   destruct (hk_collect_in hc _ _ _ _ Hin) as [mid [ev [r [Hevs [Hi Hq]]]]].
   simpl in Hi, Hq. subst i. cbn [snd].
   now apply (hook_item_ok hc mid ev r q).
+Qed.
+
+(* the Conversion context of a request that was resolved to the rule from->to carries exactly
+   these two versions, and belongs to a binding of that CRD that declares the rule *)
+Lemma conv_versions hc crd from to o r review :
+  conv_link hc crd from to = Some (o, r) ->
+  In o (hk_other hc) /\ conv_match crd from to o = true
+  /\ jget k_fromVersion (JObj (map_v1 (ctx_of_conv o r review))) = Some (JStr from)
+  /\ jget k_toVersion (JObj (map_v1 (ctx_of_conv o r review))) = Some (JStr to).
+Proof.
+  unfold conv_link. intros Hl.
+  destruct (find (conv_match crd from to) (rev (hk_other hc))) as [o0|] eqn:Hf; [|discriminate Hl].
+  destruct (find (rule_eqb from to) (ob_rules o0)) as [r0|] eqn:Hr0; [|discriminate Hl].
+  inversion Hl; subst o0 r0. clear Hl.
+  apply find_some in Hf as [Hino Hm]. apply in_rev in Hino.
+  apply find_some in Hr0 as [_ Hre]. unfold rule_eqb in Hre.
+  apply andb_true_iff in Hre as [Hfrom Hto]. apply bytes_eqb_eq in Hfrom. apply bytes_eqb_eq in Hto.
+  split; [exact Hino|]. split; [exact Hm|]. subst from to.
+  unfold ctx_of_conv, jget, map_v1, includes; proj.
+  destruct (negb (is_nil (ob_incl o)) || false); split; reflexivity.
 Qed.
 
 (* ---- the witnesses of the hook cases ---- *)
@@ -1777,8 +1855,8 @@ Definition wpod (name : string) : wobj :=
 
 Definition example_hook : hcase :=
   mkHcase [(kube_pods, [wpod "p0"]); (kube_cm, [Wit.wcm "settings" 7])]
-          [mkObind BSchedule (bs "pods") [bs "cm"] []]
-          [HWatch (bs "pods") WAdded (wpod "p1"); HOther 0 JNull [] []].
+          [mkObind BSchedule (bs "pods") [bs "cm"] [] [] []]
+          [HWatch (bs "pods") WAdded (wpod "p1"); HOther 0 JNull].
 
 Definition schedule_item (snaps : list (bytes * json)) : json :=
   JObj [(k_binding, JStr (bs "pods")); (k_snapshots, JObj snaps); (k_type, JStr s_Schedule)].
@@ -1810,8 +1888,8 @@ Proof. vm_compute. reflexivity. Qed.
    the second binding is rendered with `snapshots: {}` *)
 Definition witness_same_type_name : hcase :=
   mkHcase [(kube_cm, [Wit.wcm "settings" 7])]
-          [mkObind BSchedule (bs "tick") [] []; mkObind BSchedule (bs "tick") [bs "cm"] []]
-          [HOther 1 JNull [] []].
+          [mkObind BSchedule (bs "tick") [] [] [] []; mkObind BSchedule (bs "tick") [bs "cm"] [] [] []]
+          [HOther 1 JNull].
 
 Lemma same_type_name_refuted :
   hook_wf witness_same_type_name = true /\ T_hook witness_same_type_name = false
@@ -1823,8 +1901,8 @@ Proof. vm_compute. repeat split. Qed.
    replaces the validating one, and the admission request for the validating webhook is rendered
    as `type: Mutating` *)
 Definition witness_admission_same_name : hcase :=
-  mkHcase [] [mkObind BValidating (bs "x") [] []; mkObind BMutating (bs "x") [] []]
-          [HOther 0 (JObj [(bs "request", JNull)]) [] []].
+  mkHcase [] [mkObind BValidating (bs "x") [] [] [] []; mkObind BMutating (bs "x") [] [] [] []]
+          [HOther 0 (JObj [(bs "request", JNull)])].
 
 Lemma admission_same_name_refuted :
   hook_wf witness_admission_same_name = true /\ T_hook witness_admission_same_name = false
@@ -1832,4 +1910,37 @@ Lemma admission_same_name_refuted :
   /\ T_admission_same_name witness_admission_same_name = true
   /\ P_hook witness_admission_same_name (Some (run_hook witness_admission_same_name)) = false.
 Proof. vm_compute. repeat split. Qed.
+
+(* a conversion binding with the rules a->b and b->c (and a second binding of the same CRD with
+   c->d): a request resolved to the FIRST rule is rendered with fromVersion a, toVersion b *)
+Definition example_conv : hcase :=
+  mkHcase [(kube_cm, [Wit.wcm "settings" 7])]
+          [mkObind BConversion (bs "up") [bs "cm"] [] (bs "crd") [(bs "a", bs "b"); (bs "b", bs "c")];
+           mkObind BConversion (bs "up2") [] [] (bs "crd") [(bs "c", bs "d")]]
+          [HConv (bs "crd") JNull (bs "a") (bs "b"); HConv (bs "crd") JNull (bs "c") (bs "d")].
+
+Definition conv_item (name from to : string) (rest : list (bytes * json)) : json :=
+  JObj ([(k_binding, JStr (bs name)); (k_fromVersion, JStr (bs from)); (k_review, JNull)] ++ rest
+        ++ [(k_toVersion, JStr (bs to)); (k_type, JStr s_Conversion)]).
+
+Lemma example_conv_ok :
+  hook_wf example_conv = true /\ T_hook example_conv = false /\ T_same_type_name example_conv = false
+  /\ T_admission_same_name example_conv = false
+  /\ run_hook example_conv
+     = mkHobs [mkHitem 0 [] [(bs "cm", [bs "d/ConfigMap/settings"])]; mkHitem 1 [] []]
+              (Some (JArr [conv_item "up" "a" "b" [(k_snapshots, JObj [(bs "cm", JArr [Wit.only_fr 7])])];
+                           conv_item "up2" "c" "d" []])).
+Proof. vm_compute. repeat split. Qed.
+
+Definition example_conv_link := conv_link example_conv (bs "crd") (bs "a") (bs "b").
+Lemma example_conv_link_some : example_conv_link <> None.
+Proof. vm_compute. discriminate. Qed.
+
+(* the same array with the versions of the binding's LAST rule in the first item does not conform *)
+Lemma conv_wrong_rule_rejected :
+  P_hook example_conv
+         (Some (mkHobs [mkHitem 0 [] [(bs "cm", [bs "d/ConfigMap/settings"])]; mkHitem 1 [] []]
+                       (Some (JArr [conv_item "up" "b" "c" [(k_snapshots, JObj [(bs "cm", JArr [Wit.only_fr 7])])];
+                                    conv_item "up2" "c" "d" []])))) = false.
+Proof. vm_compute. reflexivity. Qed.
 End WitHook.
